@@ -3,7 +3,7 @@ import PydjinniModel.Gen.Collide
 /-!
 Driver handlers for property C15.
 
-* `c15.names` — predicted write list (paths as written) of a run and the predicted collisions with their cause
+* `c15.names` — predicted write list (paths as written) of a run, the per-declaration files (`byDecl`) and the predicted collisions with their cause
 * `c15.spec`  — "no path with two different digests" on the implementation's write log
 * `c15.anon`  — the synthetic names of inline function types given by their *written* signatures, and for every pair
                 why they share / must not share a name (`anonCause`)
@@ -22,8 +22,12 @@ def names (req : Json) : Except String Json := do
   let per := gs.filterMap (fun g => (gens g).map (fun c => (g, c)))
   let writes := per.flatMap (fun (g, c) => (genWrites g c c (if supportLib then support g else []) defs).map (fun w => w.2.toString))
   let cols := per.flatMap (fun (g, c) => collisions g c c defs)
+  -- the per-declaration files with the declaration they belong to (to name the declarations behind an unpredicted overwrite)
+  let byDecl := per.flatMap (fun (g, c) => (declWrites g c c defs).map (fun (i, _, _, p) =>
+    Json.arr #[(i : Json), (g.key : Json), pathJ p]))
   pure (Json.mkObj [
     ("writes", strsJ writes),
+    ("byDecl", Json.arr byDecl.toArray),
     ("collisions", Json.arr (cols.map (fun c => Json.mkObj [
       ("g", c.g.key), ("kind", kindJ c.kind), ("path", pathJ c.path), ("first", c.first), ("second", c.second),
       ("cause", c.cause.key)])).toArray)])
